@@ -86,8 +86,8 @@ class C08(PropBase):
                 "(c08_win_*). The same statements hold for the definitions REGENERATED from the Rust source on every run (c08_gen_*: all eight "
                 "memory_range() constructors and the line-record ranges never trap and equal the model's, both merge loops, insert_win_stack_info, "
                 "the index-valued builders, the module-list read filter), and end to end in plain arithmetic from the raw u64 (base,size) fields through "
-                "the generated memory_range() and builder (c08_end_to_end_size_based/_maps: build succeeds, sorted, a returned index is in bounds with "
-                "base <= x < base+size and no overflow, isolated entries found). The model is also run against the code on exhaustive small lists (both "
+                "the generated memory_range() and builder (c08_end_to_end_size_based/_maps/_unloaded/_records/_lines: build succeeds, sorted, a returned index is in bounds with "
+                "base <= x < base+size and no overflow, isolated entries found, the unloaded lookup returns exactly the covering entries). The model is also run against the code on exhaustive small lists (both "
                 "ends of the address space) and random u64 lists for 17 table kinds (incl. Memory64, Unified* views, MinidumpModuleList::read from "
                 "stream bytes, STACK WIN tables) in debug and release builds; an independent oracle re-checks the property on the implementation's answers.",
         "note": "Trusted: Coq kernel; the translator's templates and the hand-written model of range-map 0.2.0 / std sort and binary search "
